@@ -5,6 +5,7 @@ package props
 import (
 	"bytes"
 	"context"
+	"encoding/json"
 	"fmt"
 	"io"
 	"log/slog"
@@ -40,6 +41,7 @@ type c19Addr struct {
 var c19Addrs = []c19Addr{
 	{"127.0.0.1:4711", true}, {"127.8.9.10:80", true}, {"[::1]:4711", true}, {"[::ffff:127.0.0.1]:99", true},
 	{"10.0.0.5:4711", false}, {"192.168.1.7:1", false}, {"172.16.0.1:22", false}, {"8.8.8.8:53", false}, {"[2001:db8::1]:443", false}, {"[::ffff:10.0.0.1]:9", false},
+	{"[2001:db8:0:1::7f00:1]:443", false}, {"[fe80::7f00:1]:80", false}, {"[::7f00:1]:9", false}, {"[64:ff9b::7f00:1]:1", false},
 	{"garbage", false}, {"127.0.0.1", false}, {"", false}, {"localhost:80", false}, {"::1", false},
 }
 
@@ -380,6 +382,37 @@ func TestC19_Binary(t *testing.T) {
 	}
 	if u := db.Unrecognised(); len(u) > 0 {
 		t.Logf("note: statements the fake did not recognise: %v", u)
+	}
+}
+
+// TestC19_SwitchesFromJSON: the two dashboard switches as they arrive from a configuration
+// file (decoded from JSON, not set on the struct): each combination must have its effect.
+func TestC19_SwitchesFromJSON(t *testing.T) {
+	ev := evid.For("C19", "SwitchesFromJSON")
+	for _, disable := range []bool{false, true} {
+		for _, enforce := range []bool{false, true} {
+			raw := fmt.Sprintf(`{"pg_url":"x","dashboard":{"root_password":"s3cret-pw","disable_authn":%v,"enable_loopback_authn":%v}}`, disable, enforce)
+			var conf config.Root
+			if err := json.Unmarshal([]byte(raw), &conf); err != nil {
+				t.Fatalf("VERIF-INCONCLUSIVE config decode: %v", err)
+			}
+			h := web.New(nil, &conf, nil)
+			for _, a := range []c19Addr{{"127.0.0.1:5", true}, {"[::1]:5", true}, {"8.8.8.8:5", false}, {"10.1.2.3:5", false}} {
+				ran := false
+				probe := h.Authn(func(w http.ResponseWriter, r *http.Request) { ran = true; w.WriteHeader(204) })
+				r := httptest.NewRequest("GET", "/add-source", nil)
+				r.RemoteAddr = a.addr
+				w := httptest.NewRecorder()
+				probe.ServeHTTP(w, r)
+				want := disable || (!enforce && a.loopback)
+				desc := fmt.Sprintf("file config disable_authn=%v enable_loopback_authn=%v addr=%s", disable, enforce, a.addr)
+				ev.Case(!disable, desc, fmt.Sprintf("served=%v", want))
+				ev.Sample(4, desc)
+				if ran != want {
+					t.Fatalf("VERIF-VIOLATION property=C19 %s: protected handler ran=%v, want %v (status %d)", desc, ran, want, w.Code)
+				}
+			}
+		}
 	}
 }
 
